@@ -8,6 +8,7 @@ variable {F : Type} [Scalar F]
 
 theorem reset_eq (s : BollingerBands F) (h : WF s) : s.reset = some (fresh s.period s.multiplier) := by
   unfold reset
+  try simp only [gen_helper]
   simp [StandardDeviation.reset_eq _ h.sd, fresh, h.per]
 
 end TaRs.Gen.BollingerBands
